@@ -138,7 +138,8 @@ def emit_oracle(ctx, C, seed, progs):
         if seq_note:
             case["statements_kept_by_the_reduction"] = seq_note
         ctx.fail("emit() gives another text when the same Program is emitted again (emit() consumes or changes the Program it is given)" if j < 3
-                 else "emit(parse(script)) gives another text after the Program of an earlier parse() of the same script was emitted",
+                 else "emit(parse(script)) gives another text after an earlier Program of the same script was emitted in the same process" if j == 3
+                 else "emit() of a second Program of the same script (parsed before the first emit()) gives another text after the first Program was emitted",
                  case, expected=f"sha256 {r['shas'][0][:16]} (the text of the first emit())", observed=f"sha256 {r['shas'][j][:16]}", key="re-emit")
     names = ir_class_names(C)
     dist["programs_emitted_three_times_and_re-parsed"] = len(corpus) - n_rej
